@@ -411,6 +411,7 @@ func (l *log) delete(offsets map[int64]struct{}) ([]Message, int64, error) {
 	// what is in the log right now: a writing segment keeps growing while it is rewritten,
 	// and the end of the file might be only partly written at the time it is read
 	rewriteLimit := int64(-1)
+	var writerVersion message.Version
 	l.writerMu.Lock()
 	if l.writer.reader == rdr {
 		wasWriter = true
@@ -419,6 +420,7 @@ func (l *log) delete(offsets map[int64]struct{}) ([]Message, int64, error) {
 			return nil, 0, err
 		}
 		rewriteLimit = l.writer.messages.Size()
+		writerVersion = l.writer.messages.Version()
 	}
 	l.writerMu.Unlock()
 	vhook.At("delete.checked")
@@ -428,7 +430,7 @@ func (l *log) delete(offsets map[int64]struct{}) ([]Message, int64, error) {
 	if l.opts.Version.KeepRewriteVersion {
 		var detected message.Version
 		if wasWriter {
-			detected = l.writer.messages.Version()
+			detected = writerVersion
 		} else {
 			mr, err := message.OpenReader(rdr.segment.Log, rdr.segment.Offset)
 			if err != nil {
